@@ -628,6 +628,10 @@ class Interp:
             return self.node_attr(base, a, site)
         if isinstance(base, ArgsView):
             return Bound(base, a)
+        if isinstance(base, Const) and base.v is None:
+            exc = ExcV("builtins.AttributeError", {}, [Const(f"'NoneType' object has no attribute '{a}'")])
+            self.effect("none-deref", a, site)
+            raise _Raise(exc)
         if isinstance(base, ExcV):
             if a in base.kwargs:
                 return base.kwargs[a]
@@ -1004,6 +1008,9 @@ class Interp:
                 NodeV("Alias", {"alias": NodeV("Identifier", {"this": Const(a.strip("'\"")), "quoted": Const(False)},
                                                name=f"id:{a}", open=False)}, name=f"sel:{a}", open=False)
                 for a in aliases])
+        elif c["kind"] == "describe":
+            n.open = False
+            n.args["this"] = NodeV("Select", {}, name="described", open=False)
         elif c["kind"] in ("insert", "update", "delete", "create") and (c.get("tables") or c.get("name")):
             n.open = False
             name = (c.get("tables") or [c.get("name")])[0]
